@@ -85,7 +85,16 @@ func NewParser(srcPath, dstPath string) (*Parser, error) {
 			cfg.Overlay = overlay
 		}
 	}
-	pkgs, err := packages.Load(cfg, "file="+srcPath)
+	// The go command is run in the directory of the input file, not in the working
+	// directory: started from elsewhere (another module, the file given by an absolute
+	// path) it would otherwise list a package of that one file alone, without its
+	// sibling files and in-module imports.
+	query := srcPath
+	if absSrcPath, err := filepath.Abs(srcPath); err == nil {
+		cfg.Dir = filepath.Dir(absSrcPath)
+		query = absSrcPath
+	}
+	pkgs, err := packages.Load(cfg, "file="+query)
 	if err != nil {
 		return nil, logger.Errorf("%v: failed to load type information: \n%w", srcPath, err)
 	}
